@@ -189,6 +189,36 @@ Section LtsaProof.
     - intros i Hi. apply local_centered_gram_eq; assumption.
   Qed.
 
+  Lemma colmean_box n (M M' : mat) j : meq n n M M' -> j < n -> colmean n M j = colmean n M' j.
+  Proof.
+    intros H Hj. unfold colmean, colsum. f_equal. apply sumn_ext. intros i Hi. apply H; assumption.
+  Qed.
+
+  Lemma grandmean_box n (M M' : mat) : meq n n M M' -> grandmean n n M = grandmean n n M'.
+  Proof.
+    intros H. unfold grandmean, totsum. f_equal. apply sumn_ext. intros i Hi.
+    apply sumn_ext. intros j Hj. apply H; assumption.
+  Qed.
+
+  (* the executed table (means computed once) is the table of the model matrix *)
+  Lemma local_centered_gram_exec_ok k (kern : mat) nb :
+    local_centered_gram_exec k kern nb = mtab k k (local_centered_gram k kern nb).
+  Proof.
+    unfold local_centered_gram_exec, local_centered_gram. apply mtab_ext.
+    assert (HG : meq k k (mof (mtab k k (local_gram kern nb))) (local_gram kern nb))
+      by apply mof_mtab_meq.
+    assert (Hbox : forall i j, i < k -> j < k ->
+              mof (mtab k k (local_gram kern nb)) i j
+              + grandmean k k (mof (mtab k k (local_gram kern nb)))
+              - vof (vtab k (colmean k (mof (mtab k k (local_gram kern nb))))) j
+              - vof (vtab k (colmean k (mof (mtab k k (local_gram kern nb))))) i
+              = center_matrix k (local_gram kern nb) i j).
+    { intros i j Hi Hj. unfold center_matrix. rewrite !vof_vtab by assumption.
+      rewrite (HG i j Hi Hj), (grandmean_box k _ _ HG), (colmean_box k _ _ j HG Hj),
+              (colmean_box k _ _ i HG Hi). reflexivity. }
+    intros i j Hi Hj. unfold read_lower. destruct (Nat.leb j i); apply Hbox; assumption.
+  Qed.
+
   (* eigenvectors for non-zero eigenvalues of a symmetric matrix with zero column sums are
      orthogonal to the constant vector *)
   Theorem eigvec_centred k (B : mat) (v : vec) lam :
